@@ -51,6 +51,26 @@ def _map_facts(chk, cls, mname):
             dim_src = "feature"
         elif any(p.atom.kind == "const" for p in ps):
             dim_src = [p.atom.name.strip("'\"") for p in ps if p.atom.kind == "const"][0]
+    # the contraction dimension is CARRIED by both operands: a fresh helper name (dummy_dim) must be given to both by a
+    # rename, "mode" must be given to the data operand (whose native dimensions are sample x feature) by a rename
+    def renamed_to(opnd, name: str) -> bool:
+        for p in ff.paths(opnd, spine_only=True):
+            for o in p.ops:
+                if o.kind == "method" and o.name == "rename" and o.node.args and isinstance(o.node.args[0], ast.Dict):
+                    for v in o.node.args[0].values:
+                        if any(q.atom.kind == "const" and q.atom.name.strip("'\"") == name for q in ff.paths(v, spine_only=True)):
+                            return True
+        return False
+
+    if dim_src not in (None, "feature"):
+        opnds = dot_operands(c)
+        for opnd in opnds:
+            is_matrix = any(p.atom.kind == "selfattr" and p.atom.name in ("self.T", "self.Tinv", "self.V") for p in ff.paths(opnd, spine_only=True))
+            need = (dim_src != "mode") or not is_matrix
+            if need:
+                chk.check(renamed_to(opnd, dim_src), "ADJOINT.dims.carried", fn, opnd, construct=f"{cls.name}.{mname}: operand {norm(opnd)[:40]} carries the contraction dimension {dim_src!r}",
+                          why=f"the product contracts over {dim_src!r} but this operand is never renamed to carry that dimension: xr.dot then sums nothing over it "
+                              "and multiplies the shared dimensions element-wise - the map is not the matrix product it should be")
     return fn, c, mat, dim_src
 
 
@@ -173,6 +193,27 @@ def _kernel(chk, wh):
            and [norm(t) for t in st.targets[0].elts] == ["self.T", "self.Tinv"] and "_compute_whitener_transform" in norm(st.value)]
     chk.check(len(tgt) == 1, "ADJOINT.inverse.store", fit, tgt[0] if tgt else fit.node,
               construct="self.T, self.Tinv = self._compute_whitener_transform(X)", why="fit must store (T, Tinv) in the order the kernel returns them")
+    # labelling of the two matrices the kernel returns: T maps features to modes, Tinv modes to features; every map
+    # contracts by NAME, so a matrix labelled the other way round is applied transposed (complex data: conj(Tinv) != Tinv)
+    cw = wh.methods.get("_compute_whitener_transform")
+    chk.require(cw is not None, "Whitener._compute_whitener_transform vanished")
+    cwf = FuncFacts.of(cw)
+    au = [x for x in cwf.calls() if (dotted(x.func) or "").endswith("apply_ufunc")]
+    chk.require(len(au) == 1, "Whitener._compute_whitener_transform: apply_ufunc call vanished")
+    from .common import call_kwargs as _ck, inline_locals as _il
+    oc = _ck(au[0]).get("output_core_dims")
+    oc = _il(cwf, oc) if oc is not None else None
+    lab = []
+    if isinstance(oc, (ast.List, ast.Tuple)):
+        for e in oc.elts:
+            row = []
+            for x in (e.elts if isinstance(e, (ast.List, ast.Tuple)) else []):
+                xs = {p.atom.name for p in cwf.paths(x, spine_only=True)} if not isinstance(x, ast.Constant) else {repr(x.value)}
+                row.append("feature" if "self.feature_name" in xs else "mode" if xs == {"'mode'"} else "?")
+            lab.append(row)
+    chk.check(lab == [["feature", "mode"], ["mode", "feature"]], "ADJOINT.inverse.labels", cw, au[0], construct="kernel outputs labelled T: (feature, mode), Tinv: (mode, feature)",
+              why=f"the matrices returned by the kernel are labelled {lab}: all maps contract by dimension name, so a wrongly labelled matrix is applied transposed - "
+                  "for complex data un-whitening then uses conj(Tinv)")
     # rebuild V diag(s**p) V^H
     fp = pm.func("xeofs.linalg._numpy._utils._fractional_matrix_power")
     f2 = FuncFacts.of(fp)
